@@ -25,6 +25,27 @@ theorem foldl_inv0 {σ α : Type} (step : σ → α → σ) (P : σ → List α 
     P (l.foldl step init) l := by
   simpa using foldl_inv step P hs l [] init h0
 
+/-! ### three-way split -/
+
+theorem perm_three {α : Type} (p q r : α → Bool)
+    (h : ∀ a, (p a = true ∧ q a = false ∧ r a = false) ∨ (p a = false ∧ q a = true ∧ r a = false)
+      ∨ (p a = false ∧ q a = false ∧ r a = true)) (l : List α) :
+    l.Perm (l.filter p ++ l.filter q ++ l.filter r) := by
+  induction l with
+  | nil => simp
+  | cons a l ih =>
+    rcases h a with ⟨hp, hq, hr⟩ | ⟨hp, hq, hr⟩ | ⟨hp, hq, hr⟩
+    · simp only [List.filter_cons, hp, hq, hr, ↓reduceIte, Bool.false_eq_true, List.cons_append]
+      exact List.Perm.cons a ih
+    · simp only [List.filter_cons, hp, hq, hr, ↓reduceIte, Bool.false_eq_true]
+      refine (List.Perm.cons a ih).trans ?_
+      rw [List.append_assoc, List.append_assoc]
+      refine List.perm_middle.symm.trans ?_
+      simp
+    · simp only [List.filter_cons, hp, hq, hr, ↓reduceIte, Bool.false_eq_true]
+      refine (List.Perm.cons a ih).trans ?_
+      exact List.perm_middle.symm
+
 /-! ### appendAt / incAt -/
 
 theorem appendAt_length {α : Type} (ss : List (List α)) (i : Nat) (a : α) :
